@@ -31,7 +31,7 @@ ASSUMPTIONS = ['an image whose file does not exist (or is remote; the build has 
 
 IMAGES = ['pic.png', 'img/pic2.png', 'missing.png', 'pic.png', 'http://example.com/remote.png', 'img/../pic.png']
 HOSTILE = ['alpha', 'beta & gamma', '"q"', "it's", '1 < 2', 'é中', 'tab\there', 'x > y', '&amp;', '100%']
-CFG = gdoc.Cfg(words=st.sampled_from(HOSTILE + ['plain', 'words', 'here']), inlines=['t', 'em', 'st', 'code', 'link', 'img', 'fnref', 'cite', 'gloss'],
+CFG = gdoc.Cfg(words=st.sampled_from(HOSTILE + ['plain', 'words', 'here']), inlines=['t', 'em', 'st', 'code', 'link', 'img', 'fnref', 'cite', 'gloss', 'email'],
                blocks=['para', 'atx', 'setext', 'hr', 'fence', 'quote', 'list', 'table', 'figure', 'toc'],
                images=st.sampled_from(IMAGES), titles=st.sampled_from([None, None, 'Title here', 'T & "q"']),
                meta=st.lists(st.tuples(st.sampled_from(['Title', 'Author', 'css', 'Date', 'Keywords']), st.sampled_from(['A & B "t" <x>', 'style.css', 'Jane', '2020-01-01', 'é中'])),
@@ -40,7 +40,7 @@ CFG = gdoc.Cfg(words=st.sampled_from(HOSTILE + ['plain', 'words', 'here']), inli
 
 def strategy(tier):
     return st.fixed_dictionaries({'doc': gdoc.document(CFG), 'fmt': st.sampled_from(['epub', 'odt', 'bundlezip', 'itmz']), 'usedir': st.sampled_from([True, True, False]),
-                                  'cli': st.integers(0, 9), 'ext': st.sampled_from([wk.EXT_DEFAULT, wk.EXT_DEFAULT & ~EXT['SMART'], wk.EXT_DEFAULT | EXT['NO_LABELS']])})
+                                  'cli': st.integers(0, 9), 'ext': st.sampled_from([wk.EXT_DEFAULT, wk.EXT_DEFAULT & ~EXT['SMART'], wk.EXT_DEFAULT | EXT['NO_LABELS'], wk.EXT_DEFAULT | EXT['OBFUSCATE'], wk.EXT_COMPAT, wk.EXT_DEFAULT | EXT['CRITIC_ACCEPT']])})
 
 
 UU = r'[0-9a-fA-F]{8}-[0-9a-fA-F]{4}-[0-9a-fA-F]{4}-[0-9a-fA-F]{4}-[0-9a-fA-F]{12}'
